@@ -29,20 +29,48 @@ type P<T> = [T; 3]; // point padded to three lanes (2-D curves ignore lane 2)
 trait El: Real + From<u16> + Debug + Send + Sync + 'static {
     const NAME: &'static str;
     const EXACT: bool;
+    /// unit roundoff scale of the type (0 for the exact type); every float tolerance is a multiple of it
+    const EPS: f64;
     fn of_q(q: Q) -> Self;
     fn to_q(self) -> Option<Q>;
+    /// q * 2^k, exactly (floats: q must be a small dyadic and the product a normal number)
+    fn of_q_scaled(q: Q, k: i32) -> Self;
+    /// self * 2^-k, exactly (power-of-two scaling of a normal float / of a rational)
+    fn unscaled(self, k: i32) -> Self;
+    /// plain f64 shadow of the value (exact for f32/f64)
+    fn as_f64(self) -> f64;
 }
+fn pow2q(k: i32) -> Q { if k >= 0 { Q::int(1i128 << k) } else { Q::new(1, 1i128 << (-k)) } }
+fn pow2f(k: i32) -> f64 { assert!((-1022..=1023).contains(&k)); f64::from_bits(((1023 + k) as u64) << 52) }
 impl El for X {
     const NAME: &'static str = "X";
     const EXACT: bool = true;
+    const EPS: f64 = 0.0;
     fn of_q(q: Q) -> X { X::R(q) }
     fn to_q(self) -> Option<Q> { match self { X::R(q) => Some(q), _ => None } }
+    fn of_q_scaled(q: Q, k: i32) -> X { X::R(q.mul(pow2q(k))) }
+    fn unscaled(self, k: i32) -> X { self * X::R(pow2q(-k)) }
+    fn as_f64(self) -> f64 { self.shadow() }
 }
 impl El for f64 {
     const NAME: &'static str = "f64";
     const EXACT: bool = false;
+    const EPS: f64 = f64::EPSILON;
     fn of_q(q: Q) -> f64 { q.to_f64() }
     fn to_q(self) -> Option<Q> { Q::from_f64(self) }
+    fn of_q_scaled(q: Q, k: i32) -> f64 { q.to_f64() * pow2f(k) }
+    fn unscaled(self, k: i32) -> f64 { self * pow2f(-k) }
+    fn as_f64(self) -> f64 { self }
+}
+impl El for f32 {
+    const NAME: &'static str = "f32";
+    const EXACT: bool = false;
+    const EPS: f64 = f32::EPSILON as f64;
+    fn of_q(q: Q) -> f32 { q.to_f64() as f32 }
+    fn to_q(self) -> Option<Q> { Q::from_f64(self as f64) }
+    fn of_q_scaled(q: Q, k: i32) -> f32 { (q.to_f64() * pow2f(k)) as f32 }
+    fn unscaled(self, k: i32) -> f32 { (self as f64 * pow2f(-k)) as f32 }
+    fn as_f64(self) -> f64 { self as f64 }
 }
 
 // ------------------------------------------------------------------------------------------------
@@ -85,33 +113,95 @@ impl Real for Fx {
 impl El for Fx {
     const NAME: &'static str = "X";
     const EXACT: bool = true;
+    const EPS: f64 = 0.0;
     fn of_q(q: Q) -> Fx { Fx(X::R(q)) }
     fn to_q(self) -> Option<Q> { self.0.to_q() }
+    fn of_q_scaled(q: Q, k: i32) -> Fx { Fx(X::of_q_scaled(q, k)) }
+    fn unscaled(self, k: i32) -> Fx { Fx(self.0.unscaled(k)) }
+    fn as_f64(self) -> f64 { self.0.shadow() }
 }
+
+// fuel-carrying floats: the same multiplication budget around the native float types, so that a search loop that
+// never exits on floats (h = inf, NaN distances) is a verdict as well
+macro_rules! fuel_float {
+    ($F:ident, $f:ty, $name:literal) => {
+        #[derive(Clone, Copy, PartialEq, PartialOrd)]
+        struct $F($f);
+        impl Debug for $F { fn fmt(&self, f: &mut std::fmt::Formatter) -> std::fmt::Result { Debug::fmt(&self.0, f) } }
+        impl Add for $F { type Output = $F; fn add(self, o: $F) -> $F { $F(self.0 + o.0) } }
+        impl Sub for $F { type Output = $F; fn sub(self, o: $F) -> $F { $F(self.0 - o.0) } }
+        impl Mul for $F { type Output = $F; fn mul(self, o: $F) -> $F { burn(); $F(self.0 * o.0) } }
+        impl Div for $F { type Output = $F; fn div(self, o: $F) -> $F { $F(self.0 / o.0) } }
+        impl Rem for $F { type Output = $F; fn rem(self, o: $F) -> $F { $F(self.0 % o.0) } }
+        impl Neg for $F { type Output = $F; fn neg(self) -> $F { $F(-self.0) } }
+        impl From<u16> for $F { fn from(v: u16) -> $F { $F(<$f as From<u16>>::from(v)) } }
+        impl Zero for $F { fn zero() -> $F { $F(0.0) } fn is_zero(&self) -> bool { self.0 == 0.0 } }
+        impl One for $F { fn one() -> $F { $F(1.0) } }
+        impl Num for $F { type FromStrRadixErr = (); fn from_str_radix(_: &str, _: u32) -> Result<$F, ()> { Err(()) } }
+        impl ToPrimitive for $F { fn to_i64(&self) -> Option<i64> { self.0.to_i64() } fn to_u64(&self) -> Option<u64> { self.0.to_u64() } fn to_f64(&self) -> Option<f64> { ToPrimitive::to_f64(&self.0) } }
+        impl NumCast for $F { fn from<N: ToPrimitive>(n: N) -> Option<$F> { <$f as NumCast>::from(n).map($F) } }
+        impl Real for $F {
+            fn min_value() -> $F { $F(<$f as Real>::min_value()) }
+            fn min_positive_value() -> $F { $F(<$f as Real>::min_positive_value()) }
+            fn epsilon() -> $F { $F(<$f as Real>::epsilon()) }
+            fn max_value() -> $F { $F(<$f as Real>::max_value()) }
+            fn floor(self) -> $F { $F(self.0.floor()) } fn ceil(self) -> $F { $F(self.0.ceil()) } fn round(self) -> $F { $F(self.0.round()) } fn trunc(self) -> $F { $F(self.0.trunc()) }
+            fn fract(self) -> $F { $F(self.0.fract()) } fn abs(self) -> $F { $F(self.0.abs()) } fn signum(self) -> $F { $F(self.0.signum()) } fn recip(self) -> $F { $F(self.0.recip()) }
+            fn sqrt(self) -> $F { $F(self.0.sqrt()) } fn exp(self) -> $F { $F(self.0.exp()) } fn exp2(self) -> $F { $F(self.0.exp2()) } fn ln(self) -> $F { $F(self.0.ln()) }
+            fn log2(self) -> $F { $F(self.0.log2()) } fn log10(self) -> $F { $F(self.0.log10()) } fn to_degrees(self) -> $F { $F(self.0.to_degrees()) } fn to_radians(self) -> $F { $F(self.0.to_radians()) }
+            fn cbrt(self) -> $F { $F(self.0.cbrt()) } fn sin(self) -> $F { $F(self.0.sin()) } fn cos(self) -> $F { $F(self.0.cos()) } fn tan(self) -> $F { $F(self.0.tan()) }
+            fn asin(self) -> $F { $F(self.0.asin()) } fn acos(self) -> $F { $F(self.0.acos()) } fn atan(self) -> $F { $F(self.0.atan()) } fn exp_m1(self) -> $F { $F(self.0.exp_m1()) }
+            fn ln_1p(self) -> $F { $F(self.0.ln_1p()) } fn sinh(self) -> $F { $F(self.0.sinh()) } fn cosh(self) -> $F { $F(self.0.cosh()) } fn tanh(self) -> $F { $F(self.0.tanh()) }
+            fn asinh(self) -> $F { $F(self.0.asinh()) } fn acosh(self) -> $F { $F(self.0.acosh()) } fn atanh(self) -> $F { $F(self.0.atanh()) }
+            fn powf(self, o: $F) -> $F { $F(self.0.powf(o.0)) } fn log(self, o: $F) -> $F { $F(self.0.log(o.0)) } fn max(self, o: $F) -> $F { $F(self.0.max(o.0)) } fn min(self, o: $F) -> $F { $F(self.0.min(o.0)) }
+            fn abs_sub(self, o: $F) -> $F { $F((self.0 - o.0).max(0.0)) } fn hypot(self, o: $F) -> $F { $F(self.0.hypot(o.0)) } fn atan2(self, o: $F) -> $F { $F(self.0.atan2(o.0)) }
+            fn is_sign_positive(self) -> bool { self.0.is_sign_positive() }
+            fn is_sign_negative(self) -> bool { self.0.is_sign_negative() }
+            fn mul_add(self, a: $F, b: $F) -> $F { burn(); $F(self.0.mul_add(a.0, b.0)) }
+            fn powi(self, n: i32) -> $F { $F(self.0.powi(n)) }
+            fn sin_cos(self) -> ($F, $F) { let (a, b) = self.0.sin_cos(); ($F(a), $F(b)) }
+        }
+        impl El for $F {
+            const NAME: &'static str = $name;
+            const EXACT: bool = false;
+            const EPS: f64 = <$f as El>::EPS;
+            fn of_q(q: Q) -> $F { $F(<$f as El>::of_q(q)) }
+            fn to_q(self) -> Option<Q> { <$f as El>::to_q(self.0) }
+            fn of_q_scaled(q: Q, k: i32) -> $F { $F(<$f as El>::of_q_scaled(q, k)) }
+            fn unscaled(self, k: i32) -> $F { $F(<$f as El>::unscaled(self.0, k)) }
+            fn as_f64(self) -> f64 { self.0 as f64 }
+        }
+    };
+}
+fuel_float!(Fd, f64, "f64");
+fuel_float!(Fs, f32, "f32");
 /// multiplications allowed per search call (the largest count seen on the unchanged tree is recorded in the evidence)
 const FUEL_PER_SEARCH: i64 = 100_000;
 /// after this many non-terminating calls in one sweep the remaining cases are skipped (and counted)
 const MAX_HUNG: u64 = 64;
-struct Budget { hung: AtomicU64, max_used: AtomicU64, skipped: AtomicU64 }
+struct Budget { hung: AtomicU64, max_used: AtomicU64, skipped: AtomicU64, fuel: i64 }
 impl Budget {
-    fn new() -> Budget { Budget { hung: AtomicU64::new(0), max_used: AtomicU64::new(0), skipped: AtomicU64::new(0) } }
+    fn new() -> Budget { Budget::with_fuel(FUEL_PER_SEARCH) }
+    fn with_fuel(fuel: i64) -> Budget { Budget { hung: AtomicU64::new(0), max_used: AtomicU64::new(0), skipped: AtomicU64::new(0), fuel } }
     fn abandoned(&self) -> bool { if self.hung.load(Relaxed) >= MAX_HUNG { self.skipped.fetch_add(1, Relaxed); true } else { false } }
-    fn run<R>(&self, s: &Section, site: &str, inp: &dyn Fn() -> Value, w: u64, f: impl FnOnce() -> R) -> Option<R> {
-        FUEL.with(|c| c.set(FUEL_PER_SEARCH));
+    fn run<R>(&self, s: &Section, site: &str, inp: &dyn Fn() -> Value, w: u64, f: impl FnOnce() -> R) -> Option<R> { self.run_c(s, site, "", inp, w, f) }
+    /// `pre` prefixes the classes of the verdicts produced here ("" for the sweeps that existed first)
+    fn run_c<R>(&self, s: &Section, site: &str, pre: &str, inp: &dyn Fn() -> Value, w: u64, f: impl FnOnce() -> R) -> Option<R> {
+        FUEL.with(|c| c.set(self.fuel));
         let r = catch(f);
         let left = FUEL.with(|c| c.replace(i64::MAX));
         match r {
-            Ok(v) => { self.max_used.fetch_max((FUEL_PER_SEARCH - left) as u64, Relaxed); Some(v) }
+            Ok(v) => { self.max_used.fetch_max((self.fuel - left) as u64, Relaxed); Some(v) }
             Err(Caught::Unmodelled(why)) => { s.unmodelled(why); None }
             Err(Caught::Panic(m)) if m.contains(FUEL_MSG) => {
                 self.hung.fetch_add(1, Relaxed);
-                s.violation_w(site, "does-not-terminate", json!({"input": inp(), "multiplications_allowed": FUEL_PER_SEARCH}), w);
+                s.violation_w(site, &format!("{}does-not-terminate", pre), json!({"input": inp(), "multiplications_allowed": self.fuel}), w);
                 None
             }
-            Err(Caught::Panic(m)) => { s.violation_w(site, "panic", json!({"input": inp(), "panic": m}), w); None }
+            Err(Caught::Panic(m)) => { s.violation_w(site, &format!("{}panic", pre), json!({"input": inp(), "panic": m}), w); None }
         }
     }
-    fn meta(&self) -> Value { json!({"largest_multiplication_count_of_one_search": self.max_used.load(Relaxed), "allowed": FUEL_PER_SEARCH, "non_terminating_calls": self.hung.load(Relaxed), "cases_skipped_after_the_limit_of_non_terminating_calls": self.skipped.load(Relaxed)}) }
+    fn meta(&self) -> Value { json!({"largest_multiplication_count_of_one_search": self.max_used.load(Relaxed), "allowed": self.fuel, "non_terminating_calls": self.hung.load(Relaxed), "cases_skipped_after_the_limit_of_non_terminating_calls": self.skipped.load(Relaxed)}) }
 }
 
 // ------------------------------------------------------------------------------------------------
@@ -312,8 +402,12 @@ const EXTRA_CUBIC: &[[i64; 4]] = &[[0, 1, 3, 7], [0, 4, 6, 7], [7, 6, 4, 0], [0,
 /// all K-tuples over {-r..r} (lexicographic) plus the constructed extras
 fn axis_refs(k: usize, r: i64) -> Vec<AxisRef> {
     let alph: Vec<i64> = (-r..=r).collect();
+    axis_refs_over(k, &alph, r)
+}
+/// the same over any integer alphabet (`r`: constructed extras with an entry beyond it are appended)
+fn axis_refs_over(k: usize, alph: &[i64], r: i64) -> Vec<AxisRef> {
     let mut tu: Vec<Vec<i64>> = Vec::new();
-    vx::lattice::tuples(&alph, k, |t| tu.push(t.to_vec()));
+    vx::lattice::tuples(alph, k, |t| tu.push(t.to_vec()));
     if k == 4 { for e in EXTRA_CUBIC { if e.iter().any(|v| v.abs() > r) { tu.push(e.to_vec()); } } }
     tu.par_iter().map(|t| {
         let c: Vec<Q> = t.iter().map(|v| Q::int(*v as i128)).collect();
@@ -331,7 +425,7 @@ fn coprime(n: usize, start: usize) -> usize { let mut m = start; while gcd(m, n)
 /// (|x'| <= 6 M, |x''| <= 24 M on [0,1]).  Unused (exact comparisons) in the exact tier.
 fn tol<T: El>(mag: f64, lips: f64) -> f64 {
     if T::EXACT { return 0.0; }
-    256.0 * f64::EPSILON * 32.0 * mag + lips * mag / (1u64 << 39) as f64
+    256.0 * T::EPS * 32.0 * mag + lips * mag / (1u64 << 39) as f64
 }
 /// parameter used for the exact evaluation: itself (exact tier) or rounded to a multiple of 2^-38 (f64 tier)
 fn evalt<T: El>(tq: Q) -> Q {
@@ -383,66 +477,105 @@ fn check_extremum<T: El>(s: &Section, site: &str, func: &str, pre: &str, is_min:
     }
 }
 
+/// how the reference tuples are handed to vek
+#[derive(Clone, Copy)]
+enum Mode {
+    /// controls as they are; everything asserted
+    Plain,
+    /// controls multiplied by a tiny factor: the absolute-epsilon regime of the known finding.  The functions asserted here return
+    /// parameters only, which do not change under scaling, so the oracle stays in unscaled units.
+    Small(Q),
+    /// controls multiplied by 2^k (exact in every element type); everything is asserted (classes prefixed `scaled:`): parameters are
+    /// scale-invariant, box coordinates are multiplied by 2^-k (exact) before the comparison with the unscaled reference
+    Scaled(i32),
+}
+impl Mode {
+    fn tag(self) -> String { match self { Mode::Plain | Mode::Small(_) => String::new(), Mode::Scaled(k) => format!(" x 2^{}", k) } }
+}
+
 /// all per-axis functions and the boxes of one curve
-/// (`scale`: the curve handed to vek has every control multiplied by it; the functions asserted in that mode return
-/// parameters only, which do not change under scaling, so the oracle stays in unscaled units)
-fn check_curve<T: El, B: Bz<T>>(s: &Section, st: &[Sites], refs: &[&AxisRef], scale: Option<Q>, cls: &mut Cls) {
+fn check_curve<T: El, B: Bz<T>>(s: &Section, st: &[Sites], refs: &[&AxisRef], mode: Mode, cls: &mut Cls) {
     let k = B::K;
-    let small = scale.is_some();
+    let small = matches!(mode, Mode::Small(_));
     let mut pts: Vec<P<T>> = vec![[T::zero(); 3]; k];
-    for a in 0..B::D { for i in 0..k { pts[i][a] = T::of_q(refs[a].c[i].mul(scale.unwrap_or(Q::ONE))); } }
+    for a in 0..B::D { for i in 0..k {
+        pts[i][a] = match mode { Mode::Plain => T::of_q(refs[a].c[i]), Mode::Small(f) => T::of_q(refs[a].c[i].mul(f)), Mode::Scaled(e) => T::of_q_scaled(refs[a].c[i], e) };
+    } }
+    let unsc = |v: T| match mode { Mode::Scaled(e) => v.unscaled(e), Mode::Small(f) => v * T::of_q(f.recip()), Mode::Plain => v };
     let cur = B::build(&pts);
     let w: u64 = refs.iter().map(|r| r.weight).sum();
-    let inp = || if let Some(f) = scale { json!({"type": B::NAME, "elem": T::NAME, "controls_per_axis": refs.iter().map(|r| jqs(&r.c)).collect::<Vec<_>>(), "every_control_multiplied_by": jq(f)}) }
-        else { json!({"type": B::NAME, "elem": T::NAME, "controls_per_axis": refs.iter().map(|r| jqs(&r.c)).collect::<Vec<_>>()}) };
-    let pre = if small { "small-scale:" } else { "" };
+    let inp = || match mode {
+        Mode::Small(f) => json!({"type": B::NAME, "elem": T::NAME, "controls_per_axis": refs.iter().map(|r| jqs(&r.c)).collect::<Vec<_>>(), "every_control_multiplied_by": jq(f)}),
+        Mode::Scaled(e) => json!({"type": B::NAME, "elem": T::NAME, "controls_per_axis": refs.iter().map(|r| jqs(&r.c)).collect::<Vec<_>>(), "every_control_multiplied_by": format!("2^{}", e)}),
+        Mode::Plain => json!({"type": B::NAME, "elem": T::NAME, "controls_per_axis": refs.iter().map(|r| jqs(&r.c)).collect::<Vec<_>>()}),
+    };
+    let pre = match mode { Mode::Plain => "", Mode::Small(_) => "small-scale:", Mode::Scaled(_) => "scaled:" };
+    // axes whose extent over [0,1] is spanned by the two end points (no stationary point needed)
+    let ends: Vec<bool> = refs.iter().map(|r| {
+        let (e_lo, e_hi) = (r.c[0].min(r.c[k - 1]), r.c[0].max(r.c[k - 1]));
+        (match r.lo { Some(l) => l == e_lo, None => r.lo_f == e_lo.to_f64() }) && (match r.hi { Some(h) => h == e_hi, None => r.hi_f == e_hi.to_f64() })
+    }).collect();
     for a in 0..B::D {
         let r = refs[a];
         bump(cls, r.branch);
         if let Some(e) = r.extra { bump(cls, e); }
         // ---- inflections: reported parameters are zeros of the derivative inside [0,1]
-        if !small {
+        // (small-scale findings are keyed per type, not per axis: one absolute-epsilon cause)
+        {
+            let isite = if small { format!("{}::*_inflection{}", B::NAME, if B::K == 4 { "s" } else { "" }) } else { st[a].infl.clone() };
             s.eval(r.nonconst);
             if let Some(ts) = s.call(&st[a].infl, &inp, || cur.infl(a)) {
                 bump(cls, ["reported-0-inflections", "reported-1-inflection", "reported-2-inflections"][ts.len()]);
                 for t in ts {
-                    let Some(tq) = t.to_q() else { s.violation_w(&st[a].infl, "non-finite-parameter", json!({"input": inp(), "t": jd(&t)}), w); continue; };
+                    let Some(tq) = t.to_q() else { s.violation_w(&isite, &format!("{}non-finite-parameter", pre), json!({"input": inp(), "function": st[a].infl, "t": jd(&t)}), w); continue; };
                     if tq < Q::ZERO || tq > Q::ONE {
-                        s.violation_w(&st[a].infl, "parameter-outside-unit-interval", json!({"input": inp(), "axis_controls": jqs(&r.c), "reported_t": jq(tq), "branch": r.branch}), w);
+                        s.violation_w(&isite, &format!("{}parameter-outside-unit-interval", pre), json!({"input": inp(), "function": st[a].infl, "axis_controls": jqs(&r.c), "reported_t": jq(tq), "branch": r.branch}), w);
                         continue;
                     }
                     let dq = dcasteljau(&r.c, evalt::<T>(tq));
                     if exceeds::<T>(qabs(dq), Q::ZERO, tol::<T>(r.mag, 24.0)) {
-                        s.violation_w(&st[a].infl, "not-a-zero-of-the-derivative", json!({"input": inp(), "axis_controls": jqs(&r.c), "reported_t": jq(tq), "derivative_there": jq(dq), "branch": r.branch}), w);
-                    }
+                        s.violation_w(&isite, &format!("{}not-a-zero-of-the-derivative", pre), json!({"input": inp(), "function": st[a].infl, "axis_controls": jqs(&r.c), "reported_t": jq(tq), "derivative_there": jq(dq), "branch": r.branch}), w);
+                    } else if small && r.nonconst { bump(cls, "small-scale:reported-inflection-is-a-zero"); }
                 }
             }
         }
         // ---- min / max / bounds
-        // (small-scale findings are keyed per type, not per axis: one absolute-epsilon cause; the function is in the detail)
+        // (small-scale findings are keyed per type, not per axis: one absolute-epsilon cause; the function is in the detail.
+        //  Where the extremum over [0,1] is attained at an end point no stationary point is needed to find it: those cases get
+        //  their own class prefix, so that a failure there is not taken for the known interior-extremum finding.)
         let (smin, smax) = if small { (format!("{}::min_*", B::NAME), format!("{}::max_*", B::NAME)) } else { (st[a].min.clone(), st[a].max.clone()) };
+        let (e_lo, e_hi) = (r.c[0].min(r.c[k - 1]), r.c[0].max(r.c[k - 1]));
+        let min_at_end = match r.lo { Some(l) => l == e_lo, None => r.lo_f == e_lo.to_f64() };
+        let max_at_end = match r.hi { Some(h) => h == e_hi, None => r.hi_f == e_hi.to_f64() };
+        let pre_min = if small && min_at_end { "small-scale:end-point-extremum:" } else { pre };
+        let pre_max = if small && max_at_end { "small-scale:end-point-extremum:" } else { pre };
+        if small { bump(cls, if min_at_end { "small-scale:minimum-at-an-end-point" } else { "small-scale:minimum-interior" }); }
         s.eval(r.nonconst);
-        if let Some(t) = s.call(&st[a].min, &inp, || cur.tmin(a)) { check_extremum(s, &smin, &st[a].min, pre, true, t, r, &inp, w, cls); }
+        if let Some(t) = s.call(&st[a].min, &inp, || cur.tmin(a)) { check_extremum(s, &smin, &st[a].min, pre_min, true, t, r, &inp, w, cls); }
         s.eval(r.nonconst);
-        if let Some(t) = s.call(&st[a].max, &inp, || cur.tmax(a)) { check_extremum(s, &smax, &st[a].max, pre, false, t, r, &inp, w, cls); }
+        if let Some(t) = s.call(&st[a].max, &inp, || cur.tmax(a)) { check_extremum(s, &smax, &st[a].max, pre_max, false, t, r, &inp, w, cls); }
         if small { continue; }
         s.eval(r.nonconst);
         if let Some((t0, t1)) = s.call(&st[a].bounds, &inp, || cur.tbounds(a)) {
             let mut sink = Cls::new();
-            check_extremum(s, &st[a].bounds, &st[a].bounds, "min-", true, t0, r, &inp, w, &mut sink);
-            check_extremum(s, &st[a].bounds, &st[a].bounds, "max-", false, t1, r, &inp, w, &mut sink);
+            check_extremum(s, &st[a].bounds, &st[a].bounds, &format!("{}min-", pre), true, t0, r, &inp, w, &mut sink);
+            check_extremum(s, &st[a].bounds, &st[a].bounds, &format!("{}max-", pre), false, t1, r, &inp, w, &mut sink);
         }
     }
-    if small { return; }
     // ---- boxes: in curve coordinates, contain the curve, touch it on each side
+    // (small scale: only boxes all of whose sides are end-point coordinates, under the end-point class prefix; the others
+    //  inherit the known interior-extremum finding of min_*/max_* and are not asserted)
+    let bpre = if small { "small-scale:end-point-extremum:" } else { pre };
     let check_box = |site: &str, got: &[Vec<T>; 2], nax: usize, cls: &mut Cls| {
+        if small { if (0..nax).all(|a| ends[a]) { bump(cls, "small-scale:box-spanned-by-end-points(asserted)"); } else { return; } }
+        let pre = bpre;
         s.eval((0..nax).all(|a| refs[a].nonconst));
         let (mut outside, mut loose) = (Vec::new(), Vec::new());
         let mut bad = false;
         for a in 0..nax {
             let r = refs[a];
             let tl = tol::<T>(r.mag, 0.0);
-            let (Some(gmin), Some(gmax)) = (got[0][a].to_q(), got[1][a].to_q()) else { bad = true; continue; };
+            let (Some(gmin), Some(gmax)) = (unsc(got[0][a]).to_q(), unsc(got[1][a]).to_q()) else { bad = true; continue; };
             // contains every curve point: the extreme points (exact) and every grid point
             let cmin = cmp_tol::<T>(gmin, r.lo, r.lo_f, tl);
             let cmax = cmp_tol::<T>(gmax, r.hi, r.hi_f, tl);
@@ -452,9 +585,9 @@ fn check_curve<T: El, B: Bz<T>>(s: &Section, st: &[Sites], refs: &[&AxisRef], sc
         let det = |sides: &Vec<String>| json!({"input": inp(), "box": {"min": got[0].iter().map(|v| jd(v)).collect::<Vec<_>>(), "max": got[1].iter().map(|v| jd(v)).collect::<Vec<_>>()},
             "curve_extent": {"min": (0..nax).map(|a| refs[a].lo.map(jq).unwrap_or(json!(refs[a].lo_f))).collect::<Vec<_>>(), "max": (0..nax).map(|a| refs[a].hi.map(jq).unwrap_or(json!(refs[a].hi_f))).collect::<Vec<_>>()},
             "failing_sides": sides});
-        if bad { s.violation_w(site, "non-finite-box", det(&Vec::new()), w); }
-        if !outside.is_empty() { s.violation_w(site, "curve-point-outside-box", det(&outside), w); }
-        if !loose.is_empty() { s.violation_w(site, "box-side-not-touching-curve", det(&loose), w); }
+        if bad { s.violation_w(site, &format!("{}non-finite-box", pre), det(&Vec::new()), w); }
+        if !outside.is_empty() { s.violation_w(site, &format!("{}curve-point-outside-box", pre), det(&outside), w); }
+        if !loose.is_empty() { s.violation_w(site, &format!("{}box-side-not-touching-curve", pre), det(&loose), w); }
         if !bad && outside.is_empty() && loose.is_empty() { bump(cls, "box-is-the-curve-extent"); }
         let ext = (0..nax).filter(|&a| refs[a].lo != Some(refs[a].c[0].min(refs[a].c[k - 1])) || refs[a].hi != Some(refs[a].c[0].max(refs[a].c[k - 1]))).count();
         bump(cls, if ext > 0 { "box-extends-beyond-end-points" } else { "box-spanned-by-end-points" });
@@ -468,7 +601,7 @@ fn check_curve<T: El, B: Bz<T>>(s: &Section, st: &[Sites], refs: &[&AxisRef], sc
 }
 
 /// Every tuple of `pool` on every axis: curve i has pool[i] on x, pool[(i*m1+o1) mod n] on y, pool[(i*m2+o2) mod n] on z.
-fn axis_sweep<T: El, B: Bz<T>>(s: &Section, pool: &[&AxisRef], scale: Option<Q>) {
+fn axis_sweep<T: El, B: Bz<T>>(s: &Section, pool: &[&AxisRef], scale: Mode) {
     let n = pool.len();
     let (m1, m2) = (coprime(n, 100), coprime(n, 1009));
     let st = sites::<T, B>();
@@ -483,7 +616,7 @@ fn axis_sweep<T: El, B: Bz<T>>(s: &Section, pool: &[&AxisRef], scale: Option<Q>)
         }
         flush(s, cls);
     });
-    s.meta(&format!("{}<{}>", B::NAME, T::NAME), json!({"curves": n, "axis_bijections": format!("y: i*{}+3 mod {}, z: i*{}+7 mod {}", m1, n, m2, n)}));
+    s.meta(&format!("{}<{}>{}", B::NAME, T::NAME, scale.tag()), json!({"curves": n, "axis_bijections": format!("y: i*{}+3 mod {}, z: i*{}+7 mod {}", m1, n, m2, n)}));
 }
 
 const QUAD_BRANCHES: &[&str] = &["constant", "derivative-constant-nonzero", "stationary-inside", "stationary-at-endpoint", "stationary-outside"];
@@ -622,7 +755,7 @@ const SEARCH_CLASSES: &[&str] = &["refinement-improved", "stayed-at-end-point", 
 const CHAINS: &[&[u16]] = &[&[0, 1, 3, 7, 15], &[2, 5, 11], &[4, 9]];
 
 /// exact tier: straight curves along directions of integer norm (every segment length is rational)
-fn length_exact<B: Bz<X>>(s: &Section, r: i64, dirs: &[([i64; 3], i64)]) {
+fn length_exact<B: Bz<X>>(s: &Section, r: i64, dirs: &[([i64; 3], i64)], chains: &[&[u16]]) {
     let site = format!("{}::length_by_discretization", B::NAME);
     let alph: Vec<i64> = (-r..=r).collect();
     let mut tu: Vec<Vec<i64>> = Vec::new();
@@ -638,7 +771,7 @@ fn length_exact<B: Bz<X>>(s: &Section, r: i64, dirs: &[([i64; 3], i64)]) {
             let poly = Q::int((k.windows(2).map(|w| (w[1] - w[0]).abs()).sum::<i64>() * nv) as i128);
             let kind = if poly == Q::ZERO { "single-point" } else if chord == poly { "straight-monotone(chord=polygon)" } else if chord == Q::ZERO { "straight-closed(chord=0)" } else { "straight-overshooting(chord<polygon)" };
             let w: u64 = ctrl.iter().flatten().map(|v| v.unsigned_abs()).sum();
-            for chain in CHAINS {
+            for chain in chains {
                 let mut prev: Option<(u16, Q)> = None;
                 for &n in chain.iter() {
                     let inp = || json!({"type": B::NAME, "elem": "X", "controls": ctrl.iter().map(|c| c[..B::D].to_vec()).collect::<Vec<_>>(), "step_count": n});
@@ -660,13 +793,13 @@ fn length_exact<B: Bz<X>>(s: &Section, r: i64, dirs: &[([i64; 3], i64)]) {
         }
         flush(s, cls);
     });
-    s.meta(B::NAME, json!({"scalar_tuples": tu.len(), "directions": dirs.iter().map(|d| d.0[..B::D].to_vec()).collect::<Vec<_>>(), "chains": CHAINS}));
+    s.meta(B::NAME, json!({"scalar_tuples": tu.len(), "directions": dirs.iter().map(|d| d.0[..B::D].to_vec()).collect::<Vec<_>>(), "chains": chains}));
 }
 
 fn fnorm(v: &[f64]) -> f64 { v.iter().map(|x| x * x).sum::<f64>().sqrt() }
 
 /// f64 tier: general curves; inequalities up to the forward error bound of the summation
-fn length_f64<B: Bz<f64>>(s: &Section, curves: &[SearchCurve]) {
+fn length_f64<B: Bz<f64>>(s: &Section, curves: &[SearchCurve], chains: &[&[u16]]) {
     let site = format!("{}::length_by_discretization", B::NAME);
     curves.par_iter().for_each(|cv| {
         let mut cls = Cls::new();
@@ -682,7 +815,7 @@ fn length_f64<B: Bz<f64>>(s: &Section, curves: &[SearchCurve]) {
         let collinear = (poly - chord).abs() <= tolf(0);
         let kind = if poly == 0.0 { "single-point" } else if collinear { "straight-monotone(chord=polygon)" } else { "bent-or-overshooting(chord<polygon)" };
         let w: u64 = cv.ctrl.iter().flatten().map(|v| v.unsigned_abs()).sum();
-        for chain in CHAINS {
+        for chain in chains {
             let mut prev: Option<(u16, f64)> = None;
             for &n in chain.iter() {
                 let inp = || json!({"type": B::NAME, "elem": "f64", "controls": cv.ctrl.iter().map(|c| c[..B::D].to_vec()).collect::<Vec<_>>(), "step_count": n});
@@ -701,7 +834,7 @@ fn length_f64<B: Bz<f64>>(s: &Section, curves: &[SearchCurve]) {
         }
         flush(s, cls);
     });
-    s.meta(B::NAME, json!({"curves": curves.len(), "chains": CHAINS}));
+    s.meta(B::NAME, json!({"curves": curves.len(), "chains": chains}));
 }
 
 /// the largest step counts (u16): doubling n = 32767 asks for 65535, the largest value the parameter type admits
@@ -733,6 +866,218 @@ fn length_boundary<B: Bz<f64>>(s: &Section) {
 }
 
 // ------------------------------------------------------------------------------------------------
+// added by the audit: asymmetric curves, rational queries, other step counts / epsilons, float element types
+// (with the same multiplication budget), inputs scaled by powers of two
+
+/// control points without any symmetry (not centred, no two control polygon legs parallel or of equal length)
+const ASYM2: &[[i64; 3]] = &[[0, 0, 0], [1, 3, 0], [4, -1, 0], [5, 2, 0], [-3, 1, 0]];
+const ASYM3: &[[i64; 3]] = &[[0, 0, 0], [1, 3, -2], [4, -1, 1], [5, 2, 3]];
+
+fn queries_q(d: usize, vals: &[Q]) -> Vec<[Q; 3]> {
+    let mut out = Vec::new();
+    vx::lattice::tuples(vals, d, |t| { let mut p = [Q::ZERO; 3]; p[..d].copy_from_slice(t); out.push(p); });
+    out
+}
+fn qw(p: &[Q; 3]) -> u64 { p.iter().map(|v| (v.n.unsigned_abs() + v.d.unsigned_abs() - 1) as u64).sum() }
+
+/// binary_search_point_by_steps on the exact type: rational queries, any step counts, several epsilons
+fn search_sweep_q<B: Bz<Fx>>(s: &Section, curves: &[SearchCurve], queries: &[[Q; 3]], steps: &[u16], epss: &[Q]) {
+    let site = format!("{}::binary_search_point_by_steps", B::NAME);
+    let bud = Budget::new();
+    curves.par_iter().for_each(|cv| {
+        let rc = RefCurve::new(&cv.ctrl, B::D);
+        let pts: Vec<P<Fx>> = cv.ctrl.iter().map(|p| [Fx(qi(p[0] as i128)), Fx(qi(p[1] as i128)), Fx(qi(p[2] as i128))]).collect();
+        let cur = B::build(&pts);
+        let nontrivial = cv.ctrl.iter().any(|p| *p != cv.ctrl[0]);
+        let coarse: Vec<Vec<[Q; 3]>> = steps.iter().map(|&st| (0..st).map(|i| rc.at(Q::new(i as i128, st as i128))).collect()).collect();
+        let endp = rc.end();
+        let wc: u64 = cv.ctrl.iter().flatten().map(|v| v.unsigned_abs()).sum();
+        let mut cls = Cls::new();
+        for pq in queries {
+            let w = wc + qw(pq);
+            let d_end = dist2(&endp, pq);
+            for (si, &stp) in steps.iter().enumerate() {
+                let best = coarse[si].iter().map(|c| dist2(c, pq)).min();
+                for &eps in epss {
+                    let inp = || json!({"type": B::NAME, "elem": "X", "controls": cv.ctrl.iter().map(|c| c[..B::D].to_vec()).collect::<Vec<_>>(), "query": jpt(pq, B::D), "steps": stp, "epsilon": jq(eps)});
+                    if bud.abandoned() { continue; }
+                    s.eval(nontrivial);
+                    bump(&mut cls, if Q::new(1, 2 * stp as i128) < eps { "no-refinement(half-interval<epsilon)" } else { "refinement-runs" });
+                    if !stp.is_power_of_two() { bump(&mut cls, "steps-not-a-power-of-two"); }
+                    if let Some(got) = bud.run(s, &site, &inp, w, || cur.search_steps(xp(pq), stp, Fx(X::R(eps)))) {
+                        check_search_result(s, &site, &rc, got, pq, best, d_end, &inp, w, &mut cls);
+                        if nontrivial && s.wants_sample() && got.0 != Fx(qi(1)) && got.0 != Fx(qi(0)) { s.sample(json!({"input": inp(), "returned_t": jd(&got.0), "returned_point": jd(&&got.1[..B::D]), "dist2_end": jq(d_end), "dist2_best_coarse": best.map(jq)})); }
+                    }
+                }
+            }
+        }
+        flush(s, cls);
+    });
+    s.meta(B::NAME, json!({"curves": curves.len(), "queries": queries.len(), "steps": steps, "epsilons": jqs(epss), "budget": bud.meta()}));
+}
+
+fn casteljau_f(c: &[f64], t: f64) -> f64 {
+    let mut w = [0.0f64; 4];
+    let n = c.len();
+    w[..n].copy_from_slice(c);
+    for r in 1..n { for i in 0..n - r { w[i] = w[i] * (1.0 - t) + w[i + 1] * t; } }
+    w[0]
+}
+
+/// Verdict on one float search result (already divided by the input scale).
+/// Error model: vek's evaluate at parameter t carries at most ~12 roundings relative to S(t) = M for t in [0,1] (convex combination),
+/// M (1+2|t|)^n outside (M = largest control magnitude, n = degree; |1-t|+|t| <= 1+2|t|): the returned point may differ from the exact curve point by <= 64 eps S(t).  The search
+/// compares *computed* squared distances, each off by <= 2 sqrt(d) * 64 eps S + 8 eps d, so the returned point may exceed the true
+/// distance of a coarse sample / the end point by rounding only: allowed 256 eps (S + |query|)^2.
+#[allow(clippy::too_many_arguments)]
+fn check_search_float<F: El>(s: &Section, site: &str, pre: &str, rc: &RefCurve, got: (F, P<F>), k: i32, pq: &[Q; 3], best_coarse: Option<f64>, d_end: f64, mag: f64, inp: &dyn Fn() -> Value, w: u64, cls: &mut Cls) {
+    let (t, pt) = got;
+    let tf = t.as_f64();
+    let pf: Vec<f64> = (0..rc.d).map(|a| pt[a].unscaled(k).as_f64()).collect();
+    if !tf.is_finite() || pf.iter().any(|v| !v.is_finite()) {
+        s.violation_w(site, &format!("{}non-finite-result", pre), json!({"input": inp(), "returned_t": tf, "returned_point_divided_by_scale": pf.iter().map(|v| format!("{:?}", v)).collect::<Vec<_>>()}), w);
+        return;
+    }
+    let n = rc.ax[0].len() - 1;
+    let ta = tf.abs();
+    let st = if (0.0..=1.0).contains(&tf) { mag } else { mag * (1.0 + 2.0 * ta).powi(n as i32) };
+    // exact curve point where the parameter is a small dyadic (power-of-two step counts), else f64 de Casteljau (<= 8 eps64 S)
+    let want: Vec<f64> = match Q::from_f64(tf) {
+        Some(tq) if tq.d <= (1 << 20) && tq.n.abs() <= (1 << 24) => { let p = rc.at(tq); (0..rc.d).map(|a| p[a].to_f64()).collect() }
+        _ => (0..rc.d).map(|a| casteljau_f(&rc.ax[a].iter().map(|q| q.to_f64()).collect::<Vec<_>>(), tf)).collect(),
+    };
+    let tolp = 64.0 * F::EPS * st;
+    if (0..rc.d).any(|a| !((pf[a] - want[a]).abs() <= tolp)) {
+        s.violation_w(site, &format!("{}point-is-not-the-curve-at-the-returned-parameter", pre), json!({"input": inp(), "returned_t": tf, "returned_point_divided_by_scale": pf, "curve_at_t": want, "tolerance": tolp}), w);
+    }
+    let pqf: Vec<f64> = pq.iter().map(|q| q.to_f64()).collect();
+    let d: f64 = (0..rc.d).map(|a| (pf[a] - pqf[a]) * (pf[a] - pqf[a])).sum();
+    let r = st + pqf.iter().fold(0.0f64, |m, v| m.max(v.abs()));
+    let told = 256.0 * F::EPS * r * r;
+    if !(d <= d_end + told) { s.violation_w(site, &format!("{}farther-than-the-end-point", pre), json!({"input": inp(), "returned_t": tf, "returned_point_divided_by_scale": pf, "dist2": d, "dist2_of_end": d_end, "tolerance": told}), w); }
+    if let Some(bc) = best_coarse {
+        if !(d <= bc + told) { s.violation_w(site, &format!("{}farther-than-a-coarse-sample", pre), json!({"input": inp(), "returned_t": tf, "returned_point_divided_by_scale": pf, "dist2": d, "dist2_of_best_coarse_sample": bc, "tolerance": told}), w); }
+    }
+    let best0 = best_coarse.map_or(d_end, |b| b.min(d_end));
+    bump(cls, if d < best0 - told { "refinement-improved" } else if best_coarse.map_or(true, |b| d_end <= b) { "stayed-at-end-point" } else { "stayed-at-coarse-sample" });
+    if tf > 1.0 || tf < 0.0 { bump(cls, "returned-parameter-outside-unit-interval(not-asserted)"); }
+    if d <= told { bump(cls, "query-on-curve-found-within-rounding"); }
+}
+
+/// binary_search_point_by_steps on a fuel-carrying float type, every control point and the query multiplied by 2^k
+fn search_float<F: El, B: Bz<F>>(s: &Section, curves: &[SearchCurve], queries: &[[Q; 3]], steps: &[u16], eps: Q, k: i32, fuel: i64) {
+    let site = format!("{}::binary_search_point_by_steps", B::NAME);
+    let pre = if k == 0 { "float:" } else { "float:scaled:" };
+    let bud = Budget::with_fuel(fuel);
+    curves.par_iter().for_each(|cv| {
+        let rc = RefCurve::new(&cv.ctrl, B::D);
+        let pts: Vec<P<F>> = cv.ctrl.iter().map(|p| [F::of_q_scaled(Q::int(p[0] as i128), k), F::of_q_scaled(Q::int(p[1] as i128), k), F::of_q_scaled(Q::int(p[2] as i128), k)]).collect();
+        let cur = B::build(&pts);
+        let nontrivial = cv.ctrl.iter().any(|p| *p != cv.ctrl[0]);
+        let axf: Vec<Vec<f64>> = rc.ax.iter().map(|a| a.iter().map(|q| q.to_f64()).collect()).collect();
+        // reference coarse samples: exact for small step counts, f64 de Casteljau (error <= 8 eps64 M, far below the tolerance) for the large ones
+        let coarse: Vec<Vec<[f64; 3]>> = steps.iter().map(|&st| (0..st).map(|i| {
+            let mut o = [0.0f64; 3];
+            if st <= 64 { let p = rc.at(Q::new(i as i128, st as i128)); for a in 0..B::D { o[a] = p[a].to_f64(); } }
+            else { for a in 0..B::D { o[a] = casteljau_f(&axf[a], i as f64 / st as f64); } }
+            o
+        }).collect()).collect();
+        let endp = rc.end();
+        let mag = cv.ctrl.iter().flatten().fold(0.0f64, |m, v| m.max(v.unsigned_abs() as f64));
+        let wc: u64 = cv.ctrl.iter().flatten().map(|v| v.unsigned_abs()).sum();
+        let mut cls = Cls::new();
+        for pq in queries {
+            let w = wc + qw(pq);
+            let pqf = [pq[0].to_f64(), pq[1].to_f64(), pq[2].to_f64()];
+            let d2f = |c: &[f64; 3]| (0..B::D).map(|a| (c[a] - pqf[a]) * (c[a] - pqf[a])).sum::<f64>();
+            let d_end = dist2(&endp, pq).to_f64();
+            let px: P<F> = [F::of_q_scaled(pq[0], k), F::of_q_scaled(pq[1], k), F::of_q_scaled(pq[2], k)];
+            for (si, &stp) in steps.iter().enumerate() {
+                let inp = || json!({"type": B::NAME, "elem": F::NAME, "controls": cv.ctrl.iter().map(|c| c[..B::D].to_vec()).collect::<Vec<_>>(), "query": jpt(pq, B::D), "controls_and_query_multiplied_by": format!("2^{}", k), "steps": stp, "epsilon": jq(eps)});
+                if bud.abandoned() { continue; }
+                s.eval(nontrivial);
+                bump(&mut cls, if stp >= 32768 { "steps>=2^15" } else if stp.is_power_of_two() { "steps-power-of-two" } else { "steps-not-a-power-of-two" });
+                let best = coarse[si].iter().map(|c| d2f(c)).fold(None, |m: Option<f64>, v| Some(m.map_or(v, |x| x.min(v))));
+                if let Some(got) = bud.run_c(s, &site, pre, &inp, w, || cur.search_steps(px, stp, F::of_q(eps))) {
+                    check_search_float::<F>(s, &site, pre, &rc, got, k, pq, best, d_end, mag, &inp, w, &mut cls);
+                    if nontrivial && s.wants_sample() && got.0 != F::one() && got.0 != F::zero() { s.sample(json!({"input": inp(), "returned_t": got.0.as_f64(), "returned_point": (0..B::D).map(|a| format!("{:?}", got.1[a])).collect::<Vec<_>>(), "dist2_end": d_end, "dist2_best_coarse": best})); }
+                }
+            }
+        }
+        flush(s, cls);
+    });
+    s.meta(&format!("{}<{}> x 2^{}", B::NAME, F::NAME, k), json!({"curves": curves.len(), "queries": queries.len(), "steps": steps, "epsilon": jq(eps), "budget": bud.meta()}));
+}
+
+/// steps = 0 on floats: no coarse sample, half interval 1/(0+0).  The statement still applies (the result has to be a curve point no
+/// farther than the end point); a call that never returns is reported under its own class.
+fn search_float_zero_steps<F: El, B: Bz<F>>(s: &Section, ctrl: &[[i64; 3]], query: [Q; 3]) {
+    let site = format!("{}::binary_search_point_by_steps", B::NAME);
+    let pre = "float:steps-0:";
+    let bud = Budget::new();
+    let rc = RefCurve::new(ctrl, B::D);
+    let pts: Vec<P<F>> = ctrl.iter().map(|p| [F::of_q(Q::int(p[0] as i128)), F::of_q(Q::int(p[1] as i128)), F::of_q(Q::int(p[2] as i128))]).collect();
+    let cur = B::build(&pts);
+    let mag = ctrl.iter().flatten().fold(0.0f64, |m, v| m.max(v.unsigned_abs() as f64));
+    let w: u64 = ctrl.iter().flatten().map(|v| v.unsigned_abs()).sum::<u64>() + qw(&query);
+    let eps = Q::new(1, 64);
+    let inp = || json!({"type": B::NAME, "elem": F::NAME, "controls": ctrl.iter().map(|c| c[..B::D].to_vec()).collect::<Vec<_>>(), "query": jpt(&query, B::D), "steps": 0, "epsilon": jq(eps)});
+    s.eval(true);
+    s.class("steps-0");
+    let px: P<F> = [F::of_q(query[0]), F::of_q(query[1]), F::of_q(query[2])];
+    let mut cls = Cls::new();
+    if let Some(got) = bud.run_c(s, &site, pre, &inp, w, || cur.search_steps(px, 0, F::of_q(eps))) {
+        check_search_float::<F>(s, &site, pre, &rc, got, 0, &query, None, dist2(&rc.end(), &query).to_f64(), mag, &inp, w, &mut cls);
+    }
+    s.meta(&format!("{}<{}>", B::NAME, F::NAME), json!({"budget": bud.meta()}));
+}
+
+fn chains(th: bool) -> &'static [&'static [u16]] {
+    if th { &[&[0, 1, 3, 7, 15, 31, 63], &[2, 5, 11, 23], &[4, 9, 19], &[6, 13, 27], &[8, 17], &[10, 21], &[12, 25]] } else { CHAINS }
+}
+
+/// float tiers of the length: general curves, every control multiplied by 2^k; the result is multiplied by 2^-k (exact) and judged
+/// in unscaled units against chord and control polygon computed in f64, tolerance 512 (n+2) eps_F max(M, polygon, 1)
+fn length_float<F: El, B: Bz<F>>(s: &Section, curves: &[SearchCurve], k: i32, chains: &[&[u16]]) {
+    let site = format!("{}::length_by_discretization", B::NAME);
+    let pre = if k == 0 { "" } else { "scaled:" };
+    curves.par_iter().for_each(|cv| {
+        let mut cls = Cls::new();
+        let pf: Vec<P<f64>> = cv.ctrl.iter().map(|p| [p[0] as f64, p[1] as f64, p[2] as f64]).collect();
+        let pts: Vec<P<F>> = cv.ctrl.iter().map(|p| [F::of_q_scaled(Q::int(p[0] as i128), k), F::of_q_scaled(Q::int(p[1] as i128), k), F::of_q_scaled(Q::int(p[2] as i128), k)]).collect();
+        let cur = B::build(&pts);
+        let seg = |a: &P<f64>, b: &P<f64>| fnorm(&[b[0] - a[0], b[1] - a[1], b[2] - a[2]]);
+        let chord = seg(&pf[0], &pf[B::K - 1]);
+        let poly: f64 = pf.windows(2).map(|w| seg(&w[0], &w[1])).sum();
+        let mag = pf.iter().flatten().fold(0.0f64, |m, v| m.max(v.abs()));
+        let tolf = |n: u16| 512.0 * (n as f64 + 2.0) * F::EPS * mag.max(poly).max(1.0);
+        let collinear = (poly - chord).abs() <= 512.0 * 2.0 * f64::EPSILON * mag.max(poly).max(1.0);
+        let kind = if poly == 0.0 { "single-point" } else if collinear { "straight-monotone(chord=polygon)" } else { "bent-or-overshooting(chord<polygon)" };
+        let w: u64 = cv.ctrl.iter().flatten().map(|v| v.unsigned_abs()).sum();
+        for chain in chains {
+            let mut prev: Option<(u16, f64)> = None;
+            for &n in chain.iter() {
+                let inp = || json!({"type": B::NAME, "elem": F::NAME, "controls": cv.ctrl.iter().map(|c| c[..B::D].to_vec()).collect::<Vec<_>>(), "every_control_multiplied_by": format!("2^{}", k), "step_count": n});
+                s.eval(poly != 0.0);
+                bump(&mut cls, kind);
+                let Some(l) = s.call(&site, &inp, || cur.length(n)) else { prev = None; continue; };
+                let l = l.unscaled(k).as_f64();
+                if !(l >= chord - tolf(n)) { s.violation_w(&site, &format!("{}shorter-than-the-chord", pre), json!({"input": inp(), "length_divided_by_scale": format!("{:?}", l), "chord": chord, "tolerance": tolf(n)}), w + n as u64); }
+                if !(l <= poly + tolf(n)) { s.violation_w(&site, &format!("{}longer-than-the-control-polygon", pre), json!({"input": inp(), "length_divided_by_scale": format!("{:?}", l), "control_polygon": poly, "tolerance": tolf(n)}), w + n as u64); }
+                if let Some((pn, pl)) = prev {
+                    if !(l >= pl - tolf(n)) { s.violation_w(&site, &format!("{}decreases-under-doubling", pre), json!({"input": inp(), "step_count_before": pn, "length_before": pl, "length_after": format!("{:?}", l), "tolerance": tolf(n)}), w + n as u64); }
+                    bump(&mut cls, if l > pl + tolf(n) { "doubling-strictly-increases" } else { "doubling-keeps-length" });
+                }
+                prev = Some((n, l));
+                if kind.starts_with("bent") && n == 3 && s.wants_sample() { s.sample(json!({"input": inp(), "length_divided_by_scale": l, "chord": chord, "control_polygon": poly})); }
+            }
+        }
+        flush(s, cls);
+    });
+    s.meta(&format!("{}<{}> x 2^{}", B::NAME, F::NAME, k), json!({"curves": curves.len(), "chains": chains}));
+}
+
+// ------------------------------------------------------------------------------------------------
 
 fn main() {
     let rep = Report::start("C15", "exploration");
@@ -757,8 +1102,8 @@ fn main() {
         s.require_classes(QUAD_BRANCHES);
         s.require_classes(VERDICTS);
         s.require_classes(&["reported-0-inflections", "reported-1-inflection", "box-extends-beyond-end-points", "box-spanned-by-end-points"]);
-        axis_sweep::<X, QuadraticBezier2<X>>(s, &quad_all, None);
-        axis_sweep::<X, QuadraticBezier3<X>>(s, &quad_all, None);
+        axis_sweep::<X, QuadraticBezier2<X>>(s, &quad_all, Mode::Plain);
+        axis_sweep::<X, QuadraticBezier3<X>>(s, &quad_all, Mode::Plain);
         s.meta("tables", table_meta.clone());
     });
 
@@ -770,8 +1115,8 @@ fn main() {
         s.require_classes(CUBIC_RATIONAL_BRANCHES);
         s.require_classes(VERDICTS);
         s.require_classes(&["reported-0-inflections", "reported-1-inflection", "reported-2-inflections", "box-extends-beyond-end-points", "box-spanned-by-end-points"]);
-        axis_sweep::<X, CubicBezier2<X>>(s, &cubic_rat, None);
-        axis_sweep::<X, CubicBezier3<X>>(s, &cubic_rat, None);
+        axis_sweep::<X, CubicBezier2<X>>(s, &cubic_rat, Mode::Plain);
+        axis_sweep::<X, CubicBezier3<X>>(s, &cubic_rat, Mode::Plain);
         s.meta("tables", table_meta.clone());
     });
 
@@ -783,29 +1128,108 @@ fn main() {
         s.require_classes(CUBIC_RATIONAL_BRANCHES);
         s.require_classes(CUBIC_IRRATIONAL_BRANCHES);
         s.require_classes(VERDICTS);
-        axis_sweep::<f64, QuadraticBezier2<f64>>(s, &quad_all, None);
-        axis_sweep::<f64, QuadraticBezier3<f64>>(s, &quad_all, None);
-        axis_sweep::<f64, CubicBezier2<f64>>(s, &cubic_all, None);
-        axis_sweep::<f64, CubicBezier3<f64>>(s, &cubic_all, None);
+        axis_sweep::<f64, QuadraticBezier2<f64>>(s, &quad_all, Mode::Plain);
+        axis_sweep::<f64, QuadraticBezier3<f64>>(s, &quad_all, Mode::Plain);
+        axis_sweep::<f64, CubicBezier2<f64>>(s, &cubic_all, Mode::Plain);
+        axis_sweep::<f64, CubicBezier3<f64>>(s, &cubic_all, Mode::Plain);
         s.meta("tables", table_meta.clone());
     });
 
     rep.section("per-axis extrema of small curves (controls scaled by 2^-60, exact and f64)",
         "the same integer triples / quadruples multiplied by 2^-60 (exact in X and in f64; X: rational stationary points only), so every non-zero derivative coefficient is below the absolute epsilon 2^-52 used by the degeneracy tests; min_*/max_* on all four types and axes: the returned parameter (scale-invariant) is judged on the unscaled reference, against the exact extremum and the grid k/240 \
-         (sites per type '<Type>::min_*' / '<Type>::max_*', classes prefixed small-scale:); inflections, *_bounds and boxes are not asserted here; non-trivial: axis not constant",
+         (sites per type '<Type>::min_*' / '<Type>::max_*', classes prefixed small-scale:; where the extremum over [0,1] is an end-point value, which needs no stationary point, the prefix is small-scale:end-point-extremum:, so a failure there is not taken for the known interior-extremum finding); \
+         reported inflections in [0,1] with x'(t) = 0 on the unscaled reference (site '<Type>::*_inflection(s)'); aabr/aabb only where every side is an end-point coordinate (multiplied back by 2^60, exact; prefix small-scale:end-point-extremum:); *_bounds are not asserted here; non-trivial: axis not constant",
         true, false, |s| {
         s.require_classes(&["stationary-inside", "derivative-linear:root-inside", "two-roots:both-inside", "double-root:inside"]);
         let sc = Q::new(1, 1i128 << 60);
-        axis_sweep::<X, QuadraticBezier2<X>>(s, &quad_all, Some(sc));
-        axis_sweep::<X, QuadraticBezier3<X>>(s, &quad_all, Some(sc));
-        axis_sweep::<X, CubicBezier2<X>>(s, &cubic_rat, Some(sc));
-        axis_sweep::<X, CubicBezier3<X>>(s, &cubic_rat, Some(sc));
-        axis_sweep::<f64, QuadraticBezier2<f64>>(s, &quad_all, Some(sc));
-        axis_sweep::<f64, QuadraticBezier3<f64>>(s, &quad_all, Some(sc));
-        axis_sweep::<f64, CubicBezier2<f64>>(s, &cubic_all, Some(sc));
-        axis_sweep::<f64, CubicBezier3<f64>>(s, &cubic_all, Some(sc));
+        axis_sweep::<X, QuadraticBezier2<X>>(s, &quad_all, Mode::Small(sc));
+        axis_sweep::<X, QuadraticBezier3<X>>(s, &quad_all, Mode::Small(sc));
+        axis_sweep::<X, CubicBezier2<X>>(s, &cubic_rat, Mode::Small(sc));
+        axis_sweep::<X, CubicBezier3<X>>(s, &cubic_rat, Mode::Small(sc));
+        axis_sweep::<f64, QuadraticBezier2<f64>>(s, &quad_all, Mode::Small(sc));
+        axis_sweep::<f64, QuadraticBezier3<f64>>(s, &quad_all, Mode::Small(sc));
+        axis_sweep::<f64, CubicBezier2<f64>>(s, &cubic_all, Mode::Small(sc));
+        axis_sweep::<f64, CubicBezier3<f64>>(s, &cubic_all, Mode::Small(sc));
         s.meta("scale", json!("2^-60"));
     });
+
+    // ---- added by the audit: other magnitudes, f32, wide-range alphabet
+    rep.section("per-axis extrema and boxes of scaled curves (exact, f64, f32)",
+        "the same integer triples / quadruples multiplied by a power of two that is exact in the element type and keeps every quantity of the computation clear of the absolute epsilon and of over/underflow: X: 2^20 and 2^-25 (rational stationary points only; 2^20 is what the i128 rationals can carry through the comparison of the discriminant with 2^-52), f64: 2^400 and 2^-25, f32: 2^40 and 2^-9 \
+         (smallest non-zero derivative coefficient 3 * 2^k, smallest non-zero discriminant 9 * 4^k: above the epsilon of the type); everything of the unscaled sections is asserted (classes prefixed scaled:): inflections, min_*/max_*/ *_bounds judged through the returned parameters on the unscaled reference, \
+         aabr/aabb coordinates multiplied by 2^-k (exact) and compared with the exact extent; tolerances as in the f64 section with the epsilon of the type; non-trivial: axis not constant",
+        true, false, |s| {
+        s.require_classes(QUAD_BRANCHES);
+        s.require_classes(CUBIC_RATIONAL_BRANCHES);
+        s.require_classes(CUBIC_IRRATIONAL_BRANCHES);
+        s.require_classes(VERDICTS);
+        s.require_classes(&["reported-0-inflections", "reported-1-inflection", "reported-2-inflections", "box-extends-beyond-end-points", "box-spanned-by-end-points", "box-is-the-curve-extent"]);
+        for k in [20, -25] {
+            axis_sweep::<X, QuadraticBezier2<X>>(s, &quad_all, Mode::Scaled(k));
+            axis_sweep::<X, QuadraticBezier3<X>>(s, &quad_all, Mode::Scaled(k));
+            axis_sweep::<X, CubicBezier2<X>>(s, &cubic_rat, Mode::Scaled(k));
+            axis_sweep::<X, CubicBezier3<X>>(s, &cubic_rat, Mode::Scaled(k));
+        }
+        for k in [400, -25] {
+            axis_sweep::<f64, QuadraticBezier2<f64>>(s, &quad_all, Mode::Scaled(k));
+            axis_sweep::<f64, QuadraticBezier3<f64>>(s, &quad_all, Mode::Scaled(k));
+            axis_sweep::<f64, CubicBezier2<f64>>(s, &cubic_all, Mode::Scaled(k));
+            axis_sweep::<f64, CubicBezier3<f64>>(s, &cubic_all, Mode::Scaled(k));
+        }
+        for k in [40, -9] {
+            axis_sweep::<f32, QuadraticBezier2<f32>>(s, &quad_all, Mode::Scaled(k));
+            axis_sweep::<f32, QuadraticBezier3<f32>>(s, &quad_all, Mode::Scaled(k));
+            axis_sweep::<f32, CubicBezier2<f32>>(s, &cubic_all, Mode::Scaled(k));
+            axis_sweep::<f32, CubicBezier3<f32>>(s, &cubic_all, Mode::Scaled(k));
+        }
+        s.meta("tables", table_meta.clone());
+    });
+    rep.section("per-axis extrema and boxes (f32 against the dense grid)",
+        "the f64 section on f32: all control triples / quadruples over the integer alphabet on every axis of all four curve types; returned parameters converted exactly, rounded to 2^-38, curve evaluated exactly there; tolerance 256 eps_f32 * 32 M + 6 M * 2^-39 (24 M for derivatives); \
+         then the same tuples multiplied by 2^-40 (the absolute-epsilon regime of the known finding on f32: sites '<Type>::min_*' / '<Type>::max_*' / '<Type>::*_inflection(s)', classes prefixed small-scale:); non-trivial: axis not constant",
+        true, false, |s| {
+        s.require_classes(QUAD_BRANCHES);
+        s.require_classes(CUBIC_RATIONAL_BRANCHES);
+        s.require_classes(CUBIC_IRRATIONAL_BRANCHES);
+        s.require_classes(VERDICTS);
+        axis_sweep::<f32, QuadraticBezier2<f32>>(s, &quad_all, Mode::Plain);
+        axis_sweep::<f32, QuadraticBezier3<f32>>(s, &quad_all, Mode::Plain);
+        axis_sweep::<f32, CubicBezier2<f32>>(s, &cubic_all, Mode::Plain);
+        axis_sweep::<f32, CubicBezier3<f32>>(s, &cubic_all, Mode::Plain);
+        let sc = Q::new(1, 1i128 << 40);
+        axis_sweep::<f32, QuadraticBezier2<f32>>(s, &quad_all, Mode::Small(sc));
+        axis_sweep::<f32, QuadraticBezier3<f32>>(s, &quad_all, Mode::Small(sc));
+        axis_sweep::<f32, CubicBezier2<f32>>(s, &cubic_all, Mode::Small(sc));
+        axis_sweep::<f32, CubicBezier3<f32>>(s, &cubic_all, Mode::Small(sc));
+        s.meta("tables", table_meta.clone());
+    });
+    {
+        // values of very different size inside one curve (the lattice {-R..R} keeps all coefficients within one decade)
+        let wide: &[i64] = if th { &[-50, -7, -2, -1, 0, 1, 2, 7, 50] } else { &[-50, -7, -1, 0, 1, 7, 50] };
+        let wquad = axis_refs_over(3, wide, 50);
+        let wcubic = axis_refs_over(4, wide, 50);
+        let wquad_all: Vec<&AxisRef> = wquad.iter().collect();
+        let wcubic_all: Vec<&AxisRef> = wcubic.iter().collect();
+        let wcubic_rat: Vec<&AxisRef> = wcubic.iter().filter(|r| r.rational).collect();
+        rep.section("per-axis extrema and boxes over a wide-range alphabet (exact, f64)",
+            "all control triples / quadruples over {0, +-1, +-7, +-50} (thorough: also +-2), i.e. curves whose control values differ by two orders of magnitude on one axis, on every axis of all four types; X (cubics: rational stationary points only) exact as in the first two sections, f64 as in the f64 section; non-trivial: axis not constant",
+            true, false, |s| {
+            s.require_classes(QUAD_BRANCHES);
+            s.require_classes(&["constant", "derivative-constant-nonzero", "derivative-linear:root-inside", "no-real-root", "two-roots:none-inside", "two-roots:one-inside", "two-roots:both-inside"]);
+            s.require_classes(CUBIC_IRRATIONAL_BRANCHES);
+            s.require_classes(VERDICTS);
+            axis_sweep::<X, QuadraticBezier2<X>>(s, &wquad_all, Mode::Plain);
+            axis_sweep::<X, QuadraticBezier3<X>>(s, &wquad_all, Mode::Plain);
+            axis_sweep::<X, CubicBezier2<X>>(s, &wcubic_rat, Mode::Plain);
+            axis_sweep::<X, CubicBezier3<X>>(s, &wcubic_rat, Mode::Plain);
+            axis_sweep::<f64, QuadraticBezier2<f64>>(s, &wquad_all, Mode::Plain);
+            axis_sweep::<f64, QuadraticBezier3<f64>>(s, &wquad_all, Mode::Plain);
+            axis_sweep::<f64, CubicBezier2<f64>>(s, &wcubic_all, Mode::Plain);
+            axis_sweep::<f64, CubicBezier3<f64>>(s, &wcubic_all, Mode::Plain);
+            s.meta("alphabet", json!(wide));
+            s.meta("tuples", json!({"quadratic": wquad.len(), "cubic": wcubic.len(), "cubic_rational": wcubic_rat.len()}));
+        });
+    }
 
     // ---- closest-point search
     let eps = Q::new(1, 64);
@@ -839,28 +1263,28 @@ fn main() {
     // ---- length
     let dirs2: &[([i64; 3], i64)] = &[([1, 0, 0], 1), ([0, 1, 0], 1), ([3, 4, 0], 5), ([-4, 3, 0], 5)];
     let dirs3: &[([i64; 3], i64)] = &[([1, 0, 0], 1), ([0, 1, 0], 1), ([0, 0, 1], 1), ([1, 2, 2], 3), ([2, -3, 6], 7)];
-    let r_len = if th { 4 } else { 3 };
+    let r_len = if th { 5 } else { 3 };
     rep.section("discretized length of straight curves (exact)",
-        "length_by_discretization on X for control points offset + k_i * v, all scalar tuples (k_i) over {-3..3} (thorough {-4..4}), v among axis directions and directions of integer norm ((3,4), (-4,3); (1,2,2), (2,-3,6)), so every segment length is rational; \
-         step counts along the doubling chains 0,1,3,7,15 / 2,5,11 / 4,9: chord <= L(n) <= control polygon and L(2n+1) >= L(n), all exact; non-trivial: not a single point",
+        "length_by_discretization on X for control points offset + k_i * v, all scalar tuples (k_i) over {-3..3} (thorough {-5..5}), v among axis directions and directions of integer norm ((3,4), (-4,3); (1,2,2), (2,-3,6)), so every segment length is rational; \
+         step counts along the doubling chains 0,1,3,7,15 / 2,5,11 / 4,9 (thorough: 0..63 / 2..23 / 4..19 / 6,13,27 / 8,17 / 10,21 / 12,25): chord <= L(n) <= control polygon and L(2n+1) >= L(n), all exact; non-trivial: not a single point",
         true, false, |s| {
         s.require_classes(&["single-point", "straight-monotone(chord=polygon)", "straight-closed(chord=0)", "straight-overshooting(chord<polygon)", "L=chord=polygon", "chord<L<polygon", "doubling-strictly-increases", "doubling-keeps-length"]);
-        length_exact::<QuadraticBezier2<X>>(s, r_len, dirs2);
-        length_exact::<QuadraticBezier3<X>>(s, r_len, dirs3);
-        length_exact::<CubicBezier2<X>>(s, r_len, dirs2);
-        length_exact::<CubicBezier3<X>>(s, r_len, dirs3);
+        length_exact::<QuadraticBezier2<X>>(s, r_len, dirs2, chains(th));
+        length_exact::<QuadraticBezier3<X>>(s, r_len, dirs3, chains(th));
+        length_exact::<CubicBezier2<X>>(s, r_len, dirs2, chains(th));
+        length_exact::<CubicBezier3<X>>(s, r_len, dirs3, chains(th));
     });
     let pts2_len = grid_points(2, &[-1, 0, 1]);
     let pts3_len = grid_points(3, &[-1, 1]);
     rep.section("discretized length of general curves (f64)",
-        "length_by_discretization on f64 for every curve with control points from {-1,0,1}^2 (2-D cubic: quick {-2,2}^2) resp. {-1,1}^3, step counts along the doubling chains 0,1,3,7,15 / 2,5,11 / 4,9: \
+        "length_by_discretization on f64 for every curve with control points from {-1,0,1}^2 (2-D cubic: quick {-2,2}^2) resp. {-1,1}^3, step counts along the doubling chains 0,1,3,7,15 / 2,5,11 / 4,9 (thorough: the longer chains of the exact section): \
          chord - tol <= L(n) <= control polygon + tol, L(2n+1) >= L(n) - tol with the forward bound tol = 512 (n+2) eps max(M, polygon, 1); non-trivial: not a single point",
         true, false, |s| {
         s.require_classes(&["single-point", "straight-monotone(chord=polygon)", "bent-or-overshooting(chord<polygon)", "doubling-strictly-increases", "doubling-keeps-length"]);
-        length_f64::<QuadraticBezier2<f64>>(s, &curves_from(3, &pts2_len, false, false));
-        length_f64::<CubicBezier2<f64>>(s, &curves_from(4, if th { &pts2_len } else { &pts2_4 }, false, false));
-        length_f64::<QuadraticBezier3<f64>>(s, &curves_from(3, &pts3_len, false, false));
-        length_f64::<CubicBezier3<f64>>(s, &curves_from(4, &pts3_len, false, false));
+        length_f64::<QuadraticBezier2<f64>>(s, &curves_from(3, &pts2_len, false, false), chains(th));
+        length_f64::<CubicBezier2<f64>>(s, &curves_from(4, if th { &pts2_len } else { &pts2_4 }, false, false), chains(th));
+        length_f64::<QuadraticBezier3<f64>>(s, &curves_from(3, &pts3_len, false, false), chains(th));
+        length_f64::<CubicBezier3<f64>>(s, &curves_from(4, &pts3_len, false, false), chains(th));
     });
     rep.section("discretized length at the largest step counts (f64)",
         "length_by_discretization on f64 for one straight curve per type (direction (2,3,6), chord = control polygon) at step counts 16383, 32766, 32767, 65533, 65534, 65535 (refinement by doubling of 32767 asks for 65535, the largest u16): \
@@ -871,6 +1295,102 @@ fn main() {
         length_boundary::<QuadraticBezier3<f64>>(s);
         length_boundary::<CubicBezier2<f64>>(s);
         length_boundary::<CubicBezier3<f64>>(s);
+    });
+
+    // ---- added by the audit: closest-point search beyond the symmetric lattice curves
+    let half = |n: i128| Q::new(n, 2);
+    let qq2 = queries_q(2, &[half(-7), half(-1), half(3), half(9)]);
+    let qq3 = if th { queries_q(3, &[half(-7), half(-1), half(3), half(9)]) } else { queries_q(3, &[half(-7), half(3), half(9)]) };
+    rep.section("closest-point search by steps on asymmetric curves (exact)",
+        "binary_search_point_by_steps on X (same multiplication budget) for every curve with control points from the asymmetric sets {(0,0),(1,3),(4,-1),(5,2),(-3,1)} (2-D) and {(0,0,0),(1,3,-2),(4,-1,1),(5,2,3)} (3-D) (quick tier: cubics with fixed start), \
+         queries off the lattice ({-7/2,-1/2,3/2,9/2}^2; 3-D quick {-7/2,3/2,9/2}^3), steps in {3,5} (thorough also 7: coarse parameters that are not dyadic), epsilon in {1/50, 1/3} (1/3 exceeds every half interval: no refinement round at all); same three assertions as above; non-trivial: control points not all equal",
+        true, false, |s| {
+        s.require_classes(&["refinement-improved", "stayed-at-end-point", "stayed-at-coarse-sample", "no-refinement(half-interval<epsilon)", "refinement-runs", "steps-not-a-power-of-two"]);
+        let steps: &[u16] = if th { &[3, 5, 7] } else { &[3, 5] };
+        let epss = [Q::new(1, 50), Q::new(1, 3)];
+        search_sweep_q::<QuadraticBezier2<Fx>>(s, &curves_from(3, ASYM2, false, false), &qq2, steps, &epss);
+        search_sweep_q::<CubicBezier2<Fx>>(s, &curves_from(4, ASYM2, !th, false), &qq2, steps, &epss);
+        search_sweep_q::<QuadraticBezier3<Fx>>(s, &curves_from(3, ASYM3, false, false), &qq3, steps, &epss);
+        search_sweep_q::<CubicBezier3<Fx>>(s, &curves_from(4, ASYM3, !th, false), &qq3, steps, &epss);
+    });
+    rep.section("closest-point search by steps on floats (f64, f32; inputs scaled by powers of two)",
+        "binary_search_point_by_steps on f64 and f32 wrapped in the same multiplication budget (a loop that never exits is a verdict), control points and query multiplied by 2^k, k in {0, 400, -400} (f64) / {0, 40, -40} (f32) (squared distances stay finite and normal); curves: the asymmetric sets and {-2,2}^D (quick tier: cubics with fixed start; thorough 2-D: {-2,0,2}^2), \
+         queries {-7/2,-1/2,3/2,9/2}^D (3-D quick: three values), steps in {1,2,4,16,3}, epsilon 1/64; results are multiplied by 2^-k (exact) and judged in unscaled units: returned point = exact curve point at the returned parameter within 64 eps S, squared distance <= that of the end point and of every coarse sample i/steps + 256 eps (S+|query|)^2 \
+         (S = M on [0,1], M (1+2|t|)^n outside; classes prefixed float: / float:scaled:); plus steps in {32768, 65535} (u16 boundary of 2*steps) on two curves per type (budget 2*10^7); non-trivial: control points not all equal",
+        true, false, |s| {
+        s.require_classes(&["refinement-improved", "stayed-at-end-point", "stayed-at-coarse-sample", "steps-power-of-two", "steps-not-a-power-of-two", "steps>=2^15"]);
+        let steps: &[u16] = &[1, 2, 4, 16, 3];
+        let eps = Q::new(1, 64);
+        let c2q = [curves_from(3, ASYM2, false, false), curves_from(3, if th { &pts2_9 } else { &pts2_4 }, false, false)].into_iter().flatten().collect::<Vec<_>>();
+        let c2c = [curves_from(4, ASYM2, !th, false), curves_from(4, if th { &pts2_9 } else { &pts2_4 }, !th, false)].into_iter().flatten().collect::<Vec<_>>();
+        let c3q = [curves_from(3, ASYM3, false, false), curves_from(3, &pts3_8, !th, false)].into_iter().flatten().collect::<Vec<_>>();
+        let c3c = [curves_from(4, ASYM3, !th, false), curves_from(4, &pts3_8, true, !th)].into_iter().flatten().collect::<Vec<_>>();
+        for k in [0, 400, -400] {
+            search_float::<Fd, QuadraticBezier2<Fd>>(s, &c2q, &qq2, steps, eps, k, FUEL_PER_SEARCH);
+            search_float::<Fd, CubicBezier2<Fd>>(s, &c2c, &qq2, steps, eps, k, FUEL_PER_SEARCH);
+            search_float::<Fd, QuadraticBezier3<Fd>>(s, &c3q, &qq3, steps, eps, k, FUEL_PER_SEARCH);
+            search_float::<Fd, CubicBezier3<Fd>>(s, &c3c, &qq3, steps, eps, k, FUEL_PER_SEARCH);
+        }
+        for k in [0, 40, -40] {
+            search_float::<Fs, QuadraticBezier2<Fs>>(s, &c2q, &qq2, steps, eps, k, FUEL_PER_SEARCH);
+            search_float::<Fs, CubicBezier2<Fs>>(s, &c2c, &qq2, steps, eps, k, FUEL_PER_SEARCH);
+            search_float::<Fs, QuadraticBezier3<Fs>>(s, &c3q, &qq3, steps, eps, k, FUEL_PER_SEARCH);
+            search_float::<Fs, CubicBezier3<Fs>>(s, &c3c, &qq3, steps, eps, k, FUEL_PER_SEARCH);
+        }
+        // the largest step counts: 2*steps does not fit u16
+        let big: &[u16] = &[32768, 65535];
+        let bq2 = [half(-1), half(3), Q::ZERO];
+        let bq = [bq2, [half(9), half(-7), half(3)]];
+        // two bent curves per type: the first K points of the asymmetric set, and its last K points in reverse order
+        let two = |k: usize, set: &[[i64; 3]]| -> Vec<SearchCurve> { vec![SearchCurve { ctrl: set[..k].to_vec() }, SearchCurve { ctrl: set[set.len() - k..].iter().rev().cloned().collect() }] };
+        search_float::<Fd, QuadraticBezier2<Fd>>(s, &two(3, ASYM2), &bq, big, eps, 0, 20_000_000);
+        search_float::<Fd, CubicBezier2<Fd>>(s, &two(4, ASYM2), &bq, big, eps, 0, 20_000_000);
+        search_float::<Fd, QuadraticBezier3<Fd>>(s, &two(3, ASYM3), &bq, big, eps, 0, 20_000_000);
+        search_float::<Fd, CubicBezier3<Fd>>(s, &two(4, ASYM3), &bq, big, eps, 0, 20_000_000);
+        search_float::<Fs, QuadraticBezier2<Fs>>(s, &two(3, ASYM2), &bq, big, eps, 0, 20_000_000);
+        search_float::<Fs, CubicBezier2<Fs>>(s, &two(4, ASYM2), &bq, big, eps, 0, 20_000_000);
+        search_float::<Fs, QuadraticBezier3<Fs>>(s, &two(3, ASYM3), &bq, big, eps, 0, 20_000_000);
+        search_float::<Fs, CubicBezier3<Fs>>(s, &two(4, ASYM3), &bq, big, eps, 0, 20_000_000);
+    });
+    rep.section("closest-point search by steps with zero steps (f64, f32)",
+        "binary_search_point_by_steps(p, 0, 1/64) on f64 and f32 (multiplication budget 100000) for one asymmetric curve per type and one query: no coarse sample, so the result has to be a curve point no farther from the query than the end point (the general entry point documents an empty coarse iterator as allowed); \
+         a call that does not come back within the budget is reported as float:steps-0:does-not-terminate; non-trivial: all",
+        true, false, |s| {
+        s.require_classes(&["steps-0"]);
+        let q = [half(3), half(-1), half(9)];
+        search_float_zero_steps::<Fd, QuadraticBezier2<Fd>>(s, &ASYM2[1..4], q);
+        search_float_zero_steps::<Fd, QuadraticBezier3<Fd>>(s, &ASYM3[1..4], q);
+        search_float_zero_steps::<Fd, CubicBezier2<Fd>>(s, &ASYM2[0..4], q);
+        search_float_zero_steps::<Fd, CubicBezier3<Fd>>(s, &ASYM3[0..4], q);
+        search_float_zero_steps::<Fs, QuadraticBezier2<Fs>>(s, &ASYM2[1..4], q);
+        search_float_zero_steps::<Fs, QuadraticBezier3<Fs>>(s, &ASYM3[1..4], q);
+        search_float_zero_steps::<Fs, CubicBezier2<Fs>>(s, &ASYM2[0..4], q);
+        search_float_zero_steps::<Fs, CubicBezier3<Fs>>(s, &ASYM3[0..4], q);
+    });
+
+    // ---- added by the audit: length on asymmetric curves, on f32 and on scaled inputs
+    rep.section("discretized length of asymmetric and scaled curves (f64, f32)",
+        "length_by_discretization on f64 and f32 for every curve with control points from the asymmetric sets and from the lattice sets of the f64 section (thorough: 2-D quadratics over {-2..2}^2), every control multiplied by 2^k, k in {0, 400, -400} (f64) / {0, 40, -40} (f32); the result is multiplied by 2^-k (exact) and judged in unscaled units: \
+         chord - tol <= L(n) <= control polygon + tol, L(2n+1) >= L(n) - tol, tol = 512 (n+2) eps_F max(M, polygon, 1), along the doubling chains (thorough: longer and more chains); classes of the scaled runs prefixed scaled:; non-trivial: not a single point",
+        true, false, |s| {
+        s.require_classes(&["single-point", "straight-monotone(chord=polygon)", "bent-or-overshooting(chord<polygon)", "doubling-strictly-increases", "doubling-keeps-length"]);
+        let pts2_wide = grid_points(2, &[-2, -1, 0, 1, 2]);
+        let l2q = [curves_from(3, ASYM2, false, false), curves_from(3, if th { &pts2_wide } else { &pts2_len }, false, false)].into_iter().flatten().collect::<Vec<_>>();
+        let l2c = [curves_from(4, ASYM2, false, false), curves_from(4, if th { &pts2_len } else { &pts2_4 }, false, false)].into_iter().flatten().collect::<Vec<_>>();
+        let l3q = [curves_from(3, ASYM3, false, false), curves_from(3, &pts3_len, false, false)].into_iter().flatten().collect::<Vec<_>>();
+        let l3c = [curves_from(4, ASYM3, false, false), curves_from(4, &pts3_len, false, false)].into_iter().flatten().collect::<Vec<_>>();
+        for k in [0, 400, -400] {
+            length_float::<f64, QuadraticBezier2<f64>>(s, &l2q, k, chains(th));
+            length_float::<f64, CubicBezier2<f64>>(s, &l2c, k, chains(th));
+            length_float::<f64, QuadraticBezier3<f64>>(s, &l3q, k, chains(th));
+            length_float::<f64, CubicBezier3<f64>>(s, &l3c, k, chains(th));
+        }
+        for k in [0, 40, -40] {
+            length_float::<f32, QuadraticBezier2<f32>>(s, &l2q, k, chains(th));
+            length_float::<f32, CubicBezier2<f32>>(s, &l2c, k, chains(th));
+            length_float::<f32, QuadraticBezier3<f32>>(s, &l3q, k, chains(th));
+            length_float::<f32, CubicBezier3<f32>>(s, &l3c, k, chains(th));
+        }
     });
 
     std::process::exit(rep.finish());
